@@ -404,6 +404,25 @@ fn run_case(line: &str) -> Option<String> {
             let a = rd_value(&mut ts)?;
             Some(pr_val_line(&Variable::Bool(a.is_truthy())))
         }
+        "render" => {
+            // Display of a JmespathError with these (public) fields: everything after the first line is the location block
+            let text = parse_str(ts.next()?)?;
+            let line: usize = ts.next()?.parse().ok()?;
+            let column: usize = ts.next()?.parse().ok()?;
+            let e = JmespathError {
+                offset: 0,
+                line,
+                column,
+                expression: text,
+                reason: ErrorReason::Parse("x".to_string()),
+            };
+            let shown = e.to_string();
+            let head = format!("Parse error: x (line {}, column {})\n", line, column);
+            Some(match shown.strip_prefix(head.as_str()) {
+                Some(block) => format!("OK {}", print_str(block)),
+                None => "OK BADHEAD".to_string(),
+            })
+        }
         "parse" => {
             let text = parse_str(ts.next()?)?;
             Some(match jmespath::parse(&text) {
